@@ -18,7 +18,7 @@ TRUSTED = [
     "Go channel semantics: a buffered channel of capacity k accepts a non-blocking send iff it holds fewer than k elements (the model's try_send); the Go scheduler / memory model",
     "harness/eventnotifier/verif_export.go: registers a subscriber channel as handleConnection does, through reflection on the transmitChannels map (one history also uses the real CONNECT stream); TestVerif_C20S uses only the exported ServeHTTP with a hijackable writer over net.Pipe and the exported Publish* methods",
     "the 4 s watchdog around every publishing operation in TestVerif_C20S stands for 'does not return' (8 s in TestVerif_C20)",
-    "the recorder harness sets CreateTime of the event just recorded (recordEvent stamps time.Now() itself); expiry and load read the real clock",
+    "the recorder harness sets CreateTime of the event just recorded (recordEvent stamps time.Now() itself); expiry and load read the real clock; 'the clock is stepped back by d' is every stored CreateTime moved forward by d (the code's tests involve the clock and CreateTime only through their difference, as long as neither is near 0 or 2^64)",
     "tools/extract c20.go: signing-site table (handler reachability by name, lexical order of publish and response) and notifier send table",
     "fake STS endpoint in front of the cloud-role path",
     "subscriber churn (harness/kmd/c20k.go): the instant a new connection is registered is taken to be just before the first event it is handed (settle publications are made until it is handed one); a disconnect is complete when ServeHTTP has returned; a connection that has not been handed an event after 2 s (25 ms once four such waits have run out) is not waited for again before the end of its history",
@@ -136,7 +136,7 @@ def run(ctx):
             if j[1] == "c20s_mismatches":
                 violating(ctx, res, "c20s_violating", "stream", j[2],
                           "property predicate evaluated in Coq on the observed streams: every operation returned, every healthy subscriber was handed exactly the published sequence, a stalled one a subsequence of it")
-    ctx.assumptions = ["clock readings of one recorder never go backwards (hypothesis `monotone` of c20_history); the wall clock is later than 1970-02-01 (no uint64 wrap of now-31d)",
+    ctx.assumptions = ["clock readings of one recorder never go backwards (hypothesis `monotone` of c20_history); the wall clock is later than 1970-02-01 (no uint64 wrap of now-31d: hypothesis of c20_code_u64_is_model, the wrap itself is c20_clock_before_retention_wraps); the theorems about entries stamped ahead of the clock (c20_expire_keeps_future, c20_retention_keeps_young) and the recorder correspondence do NOT assume a monotone clock",
                        "subscriber identity: a detached channel stays in the model's list with live=false instead of being deleted from the map"]
     return ctx.finish("bin/build-coq; coqc Audit_Props_C20/Obl_C20/CasesC20/CasesC20R; go test -overlay TestVerif_C20 TestVerif_C20S (cmd/keymasterd) TestVerif_C20R (eventmon/eventrecorder) TestVerif_C20H (eventmon/httpd); coqc CasesC20S/K/L/F/H",
                       COMMON_TRUSTED + TRUSTED)
